@@ -664,6 +664,47 @@ func (w *wctx) ioCall(call *ast.CallExpr) ([]string, bool) {
 
 // helperPaths: the wire paths of a module function (not a method) that is handed the stream.
 func (w *wctx) helperPaths(call *ast.CallExpr) (sigSet, bool) {
+	// a local closure over the stream: read := func(part io.ReaderFrom) error { nn, err := part.ReadFrom(r); ... }
+	if id, ok := ast.Unparen(call.Fun).(*ast.Ident); ok && w.x.depth < 4 {
+		if def := w.defOf(id); def != nil {
+			if lit, ok := ast.Unparen(def).(*ast.FuncLit); ok {
+				uses := false
+				ast.Inspect(lit.Body, func(n ast.Node) bool {
+					if x, ok := n.(*ast.Ident); ok {
+						if o := w.info.Uses[x]; o != nil && w.streams[o] {
+							uses = true
+						}
+					}
+					return !uses
+				})
+				if !uses {
+					return nil, false
+				}
+				sub := &wctx{x: w.x, m: w.m, info: w.info, streams: w.streams, recv: w.recv, defs: w.defs,
+					bindRaw: map[types.Object]string{}, bindKind: map[types.Object][]string{}}
+				for k, v := range w.bindRaw {
+					sub.bindRaw[k] = v
+				}
+				for k, v := range w.bindKind {
+					sub.bindKind[k] = v
+				}
+				idx := 0
+				for _, f := range lit.Type.Params.List {
+					for _, nm := range f.Names {
+						po := w.info.Defs[nm]
+						if po != nil && idx < len(call.Args) {
+							w.bindParam(sub, po, call.Args[idx])
+						}
+						idx++
+					}
+				}
+				w.x.depth++
+				paths, _ := sub.stmts(lit.Body.List, sigSet{{}})
+				w.x.depth--
+				return nonEmptyOr(paths.dedupe()), true
+			}
+		}
+	}
 	fobj := calleeObj(w.info, call)
 	if fobj == nil {
 		return nil, false
@@ -678,13 +719,49 @@ func (w *wctx) helperPaths(call *ast.CallExpr) (sigSet, bool) {
 		return nil, false
 	}
 	hm, ok := w.x.methods[fobj.Origin()]
-	if !ok || w.x.depth >= 4 || fobj.Type().(*types.Signature).Recv() != nil {
+	if !ok || w.x.depth >= 4 {
 		return nil, false
+	}
+	if fobj.Type().(*types.Signature).Recv() != nil {
+		// a method is a helper only when it is called on the receiver of the method being read
+		// (p.readHeader(r) inside p.ReadFrom) and is not itself a WriteTo/ReadFrom
+		sel, isSel := ast.Unparen(call.Fun).(*ast.SelectorExpr)
+		if !isSel || w.recv == nil || fobj.Name() == "WriteTo" || fobj.Name() == "ReadFrom" {
+			return nil, false
+		}
+		id, isId := ast.Unparen(sel.X).(*ast.Ident)
+		if !isId || w.info.Uses[id] != w.recv {
+			return nil, false
+		}
 	}
 	w.x.depth++
 	defer func() { w.x.depth-- }()
 	// the helper's own stream parameter is the one at streamArg
 	return w.x.helperSig(hm, streamArg, w, call.Args), true
+}
+
+// bindParam records in sub what the caller (w) passes for a parameter of an
+// inlined helper or closure: the size of a byte buffer, the wire kind of an
+// element handed over as an interface or type-parameter value.
+func (w *wctx) bindParam(sub *wctx, po types.Object, arg ast.Expr) {
+	t := w.info.TypeOf(arg)
+	if t == nil {
+		return
+	}
+	if sl, ok := t.Underlying().(*types.Slice); ok {
+		if b, ok := sl.Elem().Underlying().(*types.Basic); ok && b.Kind() == types.Uint8 {
+			if rs := w.rawSize(arg); rs != "RawDyn" {
+				sub.bindRaw[po] = rs
+			}
+		}
+		return
+	}
+	pt := types.Unalias(deref(po.Type()))
+	_, isTP := pt.(*types.TypeParam)
+	_, isIface := pt.Underlying().(*types.Interface)
+	if isTP || isIface {
+		sub.bindKind[po] = w.elemOf(stripAddr(arg), "WriteTo")
+	}
 }
 
 // exprPaths: like exprElems, but a helper call that is the whole expression
@@ -736,18 +813,8 @@ func (x *wireX) helperSig(m *wireMethod, streamIdx int, caller *wctx, args []ast
 			if idx == streamIdx {
 				sp = po
 			} else if caller != nil && idx < len(args) && po != nil {
-				// what the caller hands in: a buffer of known size, an element of known wire kind
-				if t := caller.info.TypeOf(args[idx]); t != nil {
-					if sl, ok := t.Underlying().(*types.Slice); ok {
-						if b, ok := sl.Elem().Underlying().(*types.Basic); ok && b.Kind() == types.Uint8 {
-							if rs := caller.rawSize(args[idx]); rs != "RawDyn" {
-								bindRaw[po] = rs
-							}
-						}
-					} else if _, isTP := types.Unalias(deref(po.Type())).(*types.TypeParam); isTP {
-						bindKind[po] = caller.elemOf(stripAddr(args[idx]), "WriteTo")
-					}
-				}
+				tmp := &wctx{bindRaw: bindRaw, bindKind: bindKind}
+				caller.bindParam(tmp, po, args[idx])
 			}
 			idx++
 		}
@@ -756,6 +823,9 @@ func (x *wireX) helperSig(m *wireMethod, streamIdx int, caller *wctx, args []ast
 		return nil
 	}
 	w := &wctx{x: x, m: m, info: m.pkg.TypesInfo, streams: map[types.Object]bool{sp: true}, bindRaw: bindRaw, bindKind: bindKind}
+	if m.decl.Recv != nil && len(m.decl.Recv.List) > 0 && len(m.decl.Recv.List[0].Names) > 0 {
+		w.recv = w.info.Defs[m.decl.Recv.List[0].Names[0]]
+	}
 	paths, _ := w.stmts(m.decl.Body.List, sigSet{{}})
 	return nonEmptyOr(paths.dedupe())
 }
